@@ -77,6 +77,23 @@ def compare_case(case, modes=MODES):
     return out
 
 
+def mixed_unpivot(case, st, rng):
+    """final unpivot that routes a numeric and a string column into one block column (an entity-attribute-value layout):
+    Polars may refuse (no common type), it must not return the numbers as text"""
+    fr = st.frame
+    if "uid" not in fr.columns or st.has_null("uid") or fr["uid"].duplicated().any() or fr.shape[0] == 0:
+        return None
+    nums = [c for c in st.cols(("i", "f")) if c != "uid" and str(c).isidentifier() and not st.has_null(c)]
+    strs = [c for c in st.cols(("s",)) if str(c).isidentifier() and not st.has_null(c)]
+    if not nums or not strs:
+        return None
+    content = [rng.choice(nums), rng.choice(strs)]
+    rng.shuffle(content)
+    spec = {"record_keys": ["uid"], "control_table_keys": ["rkm"],
+            "control_table": {"cols": ["rkm", "rvm"], "rows": [["key0", content[0]], ["key1", content[1]]]}, "strict": True}
+    return {"op": "convert_records", "record_map": {"blocks_in": None, "blocks_out": spec, "strict": True}, "src": case["recipe"]}
+
+
 def run_batch(seed, batch, tier):
     monitors.install()
     b = Batch(PID, seed, batch, tier)
@@ -87,6 +104,11 @@ def run_batch(seed, batch, tier):
         try:
             with time_limit(30):
                 case, st = diff.new_case(b.rng, profile(tier, b.rng), tier, gl)
+                if b.rng.random() < 0.2:
+                    mixed = mixed_unpivot(case, st, b.rng)
+                    if mixed is not None:
+                        case["recipe"], case["final_order"] = mixed, None
+                        b.count("mixed_type_unpivot_shapes")
                 b.evaluation()
                 res = compare_case(case)
         except CaseTimeout:
@@ -142,9 +164,12 @@ def replay(v):
     if not c:
         return None
     mode = c.get("mode", "polars")
+    monitors.OBS.reset_case()
     r = compare_case(c, modes=(mode,))
     st = r.get(mode)
     if st and st[0] == "mismatch":
+        if set(monitors.OBS.triggers) - {"sql_zero_using"}:
+            return None  # as in run_batch: an execution in which a trigger monitor fired is not judged
         return mode + ": " + st[1]
     return None
 
